@@ -524,7 +524,7 @@ check("C19", "model_checking",
 check("C20", "exploration",
       "route table discovery on the real MPC-server and shard-server routers through IpaHttpServer::handle_req: every path of <= 5 "
       "segments over the segment alphabet harvested from the http_serde AXUM_PATH constants (plus a valid and a malformed query id "
-      "and a step segment), with and without trailing slash x GET/POST/PUT/DELETE x {empty, JSON} body, once with a ClientIdentity "
+      "and a step segment), with and without trailing slash x GET/POST/PUT/DELETE/HEAD/OPTIONS/PATCH x {empty, JSON} body, once with a ClientIdentity "
       "extension and once without; every mounted route is classified by the documented tables (unlisted routes must require "
       "identity). Oracle: peer routes answer 401 without identity whatever the parameters, report-collector routes never 401, no route "
       "exists only for anonymous callers. Live loopback matrix: {TLS on, off} x {inherited listener, self-bound port} x identity "
